@@ -575,6 +575,21 @@ C16_EVAL_THEOREMS = [
     "C16.keysIn_preserved", "C16.chain_const", "C16.chain_const_total", "C16.chain_leaf_const", "C16.nodes_exist",
 ]
 
+EVALBLOCK_MODULES = ["TaffyVerif.Props.EvalBlock"]
+EVALBLOCK_C05 = ["EvalBlock." + n for n in [
+    "block_PHZ", "block_HiddenBlind", "algs_PHZ", "algs_HiddenBlind", "hidden_zero_algs", "hidden_invisible_algs",
+    "eval_block_leaf_trees", "hidden_zero_block_leaf_trees", "hidden_zero_pass_block_leaf_trees",
+    "hidden_invisible_block_leaf_trees", "hidden_invisible_pass_block_leaf_trees", "hidden_invisible_replace_block_leaf_trees"]]
+EVALBLOCK_C06 = ["EvalBlock." + n for n in [
+    "block_AbsBlind", "algs_AbsBlind", "abs_invisible_algs", "abs_invisible_block_leaf_trees",
+    "abs_invisible_pass_block_leaf_trees", "abs_invisible_replace_block_leaf_trees"]]
+EVALBLOCK_C01 = ["EvalBlock." + n for n in [
+    "block_PLCovers", "algs_PLCovers", "single_pass_layouts_quiet_algs", "single_pass_layouts_quiet_block_leaf_trees",
+    "history_layouts_quiet_block_leaf_trees", "hidden_order_history_repaired", "hidden_order_single_pass_repaired"]]
+EVALBLOCK_C16 = ["EvalBlock." + n for n in [
+    "block_CallsAtMost", "block_calls_lower", "not_AlgsCallsAtMost_algs", "leaf_calls_le_pow_block_leaf_trees",
+    "block_child_input_depends_on_input"]]
+
 _PAIRS_TRUSTED = [
     "the whole-tree clause is NOT a theorem here: it is checked by sampling tree pairs on the real implementation "
     "(fresh TaffyTree, rounding disabled, harness measure function treegen::measure); the predicate is evaluated twice, "
@@ -586,7 +601,7 @@ _PAIRS_TRUSTED = [
 ]
 
 PROPS["C05"] = {
-    "modules": C05_EVAL_MODULES + C17_MODULES, "theorems": C05_EVAL_THEOREMS + ["C17.dispatch_eq"],
+    "modules": C05_EVAL_MODULES + C17_MODULES + EVALBLOCK_MODULES, "theorems": C05_EVAL_THEOREMS + ["C17.dispatch_eq"] + EVALBLOCK_C05,
     "harness": "C05", "driver": "C05", "monitor": False, "extra_ties": [("EVAL", "EVAL")],
     "rule": "style trees of 2-12 nodes as for C04, with 1-3 extra non-root nodes forced to display:none (keeping their subtrees, "
             "half of them with explicit grid-row/grid-column lines -5..6 / spans, some absolute, some with sizes and margins); for "
@@ -600,13 +615,13 @@ PROPS["C05"] = {
     "assumptions": ["a display:none root is outside the quantifier: compute_root_layout writes the root's style padding/border/"
                     "margin into its layout (size and location stay 0); see the note in the evidence"],
     "level_text": "Theorems over the tree-level evaluator (Model/Eval.lean: compute_child_layout + compute_cached_layout + compute_hidden_layout, any cache implementation, dispatch arms extracted from the source), for every tree, state, input and fuel: hiddenLayout zeroes every layout and clears every cache of the subtree; the invariant 'every display:none child of a box-generating node has an all-zero own layout and everything strictly below a display:none node is all-zero' holds on a fresh tree and is preserved by every evaluation provided the container algorithms only write zero layouts to hidden children (AlgsPHZ); and if the container algorithms' programs do not depend on a hidden child's style beyond display:none (HiddenBlind), replacing a hidden subtree by any other hidden subtree (a bare leaf) yields equal outputs and equal layouts/caches everywhere outside hidden subtrees. On the real code both clauses are checked on generated tree pairs (flex, grid, block parents; hidden nodes with grid lines).",
-    "level_note": 'partial: AlgsPHZ and HiddenBlind are named hypotheses about the three container algorithms; they are discharged for the block model where recorded in Props/C05Block (when present) and otherwise validated by the tree-pair run on the implementation. Trusted: Lean kernel; Eval model (tied by the EVAL correspondence on leaf/block trees); extractor for the dispatch arms. Axioms: propext, Classical.choice, Quot.sound.',
+    "level_note": 'partial: AlgsPHZ and HiddenBlind are named hypotheses about the container algorithms; they are PROVED for the block model (EvalBlock.block_PHZ, block_HiddenBlind), so on trees whose containers are all block (BlockOnly) both clauses hold unconditionally (…_block_leaf_trees theorems); for flex and grid they remain hypotheses validated by the tree-pair run on the implementation. Trusted: Lean kernel; Eval model (tied by the EVAL correspondence on leaf/block trees); extractor for the dispatch arms. Axioms: propext, Classical.choice, Quot.sound.',
     "technique": 'Lean 4 simulation proof over the interaction-program evaluator + metamorphic tree pairs on the real TaffyTree',
     "undischarged": ['AlgsPHZ / HiddenBlind for flexbox.rs and grid (unmodelled as programs): sampled by the tree pairs only'],
 }
 
 PROPS["C06"] = {
-    "modules": C06_EVAL_MODULES, "theorems": C06_EVAL_THEOREMS,
+    "modules": C06_EVAL_MODULES + EVALBLOCK_MODULES, "theorems": C06_EVAL_THEOREMS + EVALBLOCK_C06,
     "harness": "C06", "driver": "C06", "monitor": False, "extra_ties": [("EVAL", "EVAL")],
     "rule": "style trees of 2-12 nodes as for C04, with 1-3 extra non-root nodes forced to position:absolute (random insets incl. "
             "percentages and negatives, a quarter with explicit grid lines, a quarter with auto lines, a third with large sizes); for "
@@ -620,7 +635,7 @@ PROPS["C06"] = {
     "assumptions": ["known finding c06-abs-grid-implicit-tracks: an absolutely positioned grid child's explicit lines create "
                     "implicit tracks (attribution uses the grid-line fields, which only the harness sees)"],
     "level_text": "Theorems over the tree-level evaluator, for every tree, state, input, fuel and each of the three cache implementations: if the container algorithms' programs are equivalent up to calls/set-layouts addressed to absolutely positioned children and up to the contentSize of the result (AbsBlind), then replacing an absolutely positioned box (style and subtree) by any other absolutely positioned box yields outputs equal up to contentSize and equal order, location, size, scrollbar, border, padding and margin at every node outside the absolute subtrees. On the real code the clause is checked on generated tree pairs; the grid size estimate's dependence on an absolute child's grid lines is the known finding.",
-    "level_note": 'partial: AbsBlind is a named hypothesis about the three container algorithms (not discharged for any concrete algorithm yet; validated by the tree-pair run). Known finding: grid (c06-abs-grid-implicit-tracks). Trusted: Lean kernel; Eval model. Axioms: propext, Classical.choice, Quot.sound.',
+    "level_note": 'partial: AbsBlind is a named hypothesis about the container algorithms; it is PROVED for the block model (EvalBlock.block_AbsBlind), so on BlockOnly trees the clause holds unconditionally; for flex and grid it remains a hypothesis validated by the tree-pair run. Known finding: grid (c06-abs-grid-implicit-tracks). Trusted: Lean kernel; Eval model. Axioms: propext, Classical.choice, Quot.sound.',
     "technique": 'Lean 4 simulation-up-to proof over the interaction-program evaluator + metamorphic tree pairs on the real TaffyTree',
     "undischarged": ['AbsBlind for block, flex and grid programs: sampled by the tree pairs only'],
 }
